@@ -1188,4 +1188,167 @@ theorem by_fullWindows (c : Cont) (k : Nat) (hdt : 0 < c.dt) :
   unfold fullWindows
   rw [(cont_span_div c k hdt).1]
 
+/-! ### composition `downsampled_by` ∘ `downsampled_by` (deepening round D) -/
+
+theorem blocks_length (k : Nat) (l : List Rat) : (blocks k l).length = l.length / k := by
+  simp [blocks]
+
+theorem blocks_getElem (k : Nat) (l : List Rat) (i : Nat) (h : i < (blocks k l).length) :
+    (blocks k l)[i] = (l.drop (i * k)).take k := by
+  simp [blocks]
+
+/-- Rows `i·k₂ … (i+1)·k₂-1` of the `k₁`-blocks are the `k₁`-blocks of the `i`-th `k₁·k₂`-block. -/
+theorem blocks_blocks (f : List Rat → Rat) (k1 k2 : Nat) (hk1 : 0 < k1) (hk2 : 0 < k2) (l : List Rat) :
+    blocks k2 ((blocks k1 l).map f) = (blocks (k1 * k2) l).map fun B => (blocks k1 B).map f := by
+  apply List.ext_getElem
+  · simp only [blocks_length, List.length_map, Nat.div_div_eq_div_mul]
+  · intro i h1 h2
+    have hi : i < l.length / (k1 * k2) := by
+      simpa [blocks_length] using h2
+    have hle : (i + 1) * (k1 * k2) ≤ l.length := by
+      have := Nat.mul_le_of_le_div _ _ _ (Nat.succ_le_of_lt hi)
+      simpa using this
+    rw [blocks_getElem, List.getElem_map, blocks_getElem]
+    apply List.ext_getElem
+    · simp only [List.length_take, List.length_drop, List.length_map, blocks_length]
+      have hB : min (k1 * k2) (l.length - i * (k1 * k2)) = k1 * k2 := by
+        apply Nat.min_eq_left
+        have : (i + 1) * (k1 * k2) = i * (k1 * k2) + k1 * k2 := by ring
+        omega
+      rw [hB, Nat.mul_div_cancel_left _ hk1]
+      apply Nat.min_eq_left
+      have h3 : (i + 1) * k2 ≤ l.length / k1 := by
+        rw [Nat.le_div_iff_mul_le hk1]
+        have : (i + 1) * k2 * k1 = (i + 1) * (k1 * k2) := by ring
+        omega
+      have : (i + 1) * k2 = i * k2 + k2 := by ring
+      omega
+    · intro j hj1 hj2
+      have hj : j < k2 := by
+        simp only [List.length_take] at hj1; omega
+      simp only [List.getElem_take, List.getElem_drop, List.getElem_map, blocks_getElem]
+      congr 1
+      rw [List.drop_take, List.drop_drop, List.take_take]
+      have e1 : i * (k1 * k2) + j * k1 = (i * k2 + j) * k1 := by ring
+      rw [e1]
+      congr 1
+      symm
+      apply Nat.min_eq_left
+      have : (j + 1) * k1 ≤ k2 * k1 := Nat.mul_le_mul_right _ hj
+      have e2 : (j + 1) * k1 = j * k1 + k1 := by ring
+      have e3 : k2 * k1 = k1 * k2 := by ring
+      omega
+
+theorem blocks_cons (k : Nat) (hk : 0 < k) (l : List Rat) (h : k ≤ l.length) :
+    blocks k l = l.take k :: blocks k (l.drop k) := by
+  unfold blocks
+  have hq : l.length / k = (l.drop k).length / k + 1 := by
+    rw [List.length_drop, Nat.div_eq l.length k, if_pos ⟨hk, h⟩]
+  rw [hq, List.range_succ_eq_map, List.map_cons, List.map_map]
+  congr 1
+  · simp
+  · apply List.map_congr_left
+    intro i _
+    simp only [Function.comp, List.drop_drop]
+    congr 2
+    rw [Nat.succ_mul]; omega
+
+/-- Summing the sums of the `k`-blocks of a list that consists of whole blocks gives the sum of the list. -/
+theorem sum_blocks (k : Nat) (hk : 0 < k) : ∀ (q : Nat) (B : List Rat), B.length = k * q →
+    ((blocks k B).map List.sum).sum = B.sum := by
+  intro q
+  induction q with
+  | zero =>
+    intro B hB
+    have : B = [] := List.eq_nil_of_length_eq_zero (by simpa using hB)
+    subst this
+    simp [blocks]
+  | succ q ih =>
+    intro B hB
+    have hle : k ≤ B.length := by rw [hB, Nat.mul_succ]; omega
+    rw [blocks_cons k hk B hle, List.map_cons, List.sum_cons, ih (B.drop k) (by rw [List.length_drop, hB, Nat.mul_succ]; omega)]
+    conv_rhs => rw [← List.take_append_drop k B]
+    rw [List.sum_append]
+
+/-- Composition `downsampled_by(k₁)` then `downsampled_by(k₂)` against `downsampled_by(k₁·k₂)`. -/
+theorem by_by' (f g h : List Rat → Rat) (c : Cont) (k1 k2 : Nat) (hk1 : 0 < k1) (hk2 : 0 < k2) :
+    ∃ r1 r2 r12, downBy f (.cont c) k1 = .ok r1 ∧ downBy g (.cont r1) k2 = .ok r2 ∧
+      downBy h (.cont c) (k1 * k2) = .ok r12 ∧
+      r2.start = r12.start ∧ r2.dt = r12.dt ∧
+      r2.data = (blocks (k1 * k2) c.data).map (fun B => g ((blocks k1 B).map f)) ∧
+      r12.data = (blocks (k1 * k2) c.data).map h := by
+  have hk : 0 < k1 * k2 := Nat.mul_pos hk1 hk2
+  refine ⟨{ start := c.start + (c.dt * ((k1 : Int) - 1)) / 2, dt := c.dt * k1, data := (blocks k1 c.data).map f },
+    { start := (c.start + (c.dt * ((k1 : Int) - 1)) / 2) + ((c.dt * k1) * ((k2 : Int) - 1)) / 2, dt := (c.dt * k1) * k2,
+      data := (blocks k2 ((blocks k1 c.data).map f)).map g },
+    { start := c.start + (c.dt * (((k1 * k2 : Nat) : Int) - 1)) / 2, dt := c.dt * (k1 * k2 : Nat), data := (blocks (k1 * k2) c.data).map h },
+    ?_, ?_, ?_, ?_, ?_, ?_, rfl⟩
+  · simp only [downBy]; rw [if_neg (by omega)]
+  · simp only [downBy]; rw [if_neg (by omega)]
+  · simp only [downBy]; rw [if_neg (by omega)]
+  · -- the two half-period shifts add up without rounding loss: they are never both odd
+    simp only
+    push_cast
+    rcases Nat.even_or_odd' k1 with ⟨m, hm | hm⟩
+    · subst hm
+      have e1 : c.dt * ((2 * m : Nat) : Int) * ((k2 : Int) - 1) = 2 * (c.dt * (m : Int) * ((k2 : Int) - 1)) := by
+        push_cast; ring
+      have e2 : c.dt * (((2 * m : Nat) : Int) * (k2 : Int) - 1)
+          = c.dt * (((2 * m : Nat) : Int) - 1) + 2 * (c.dt * (m : Int) * ((k2 : Int) - 1)) := by
+        push_cast; ring
+      rw [e1, e2]
+      generalize c.dt * (m : Int) * ((k2 : Int) - 1) = x
+      generalize c.dt * (((2 * m : Nat) : Int) - 1) = y
+      omega
+    · subst hm
+      have e1 : c.dt * (((2 * m + 1 : Nat) : Int) - 1) = 2 * (c.dt * (m : Int)) := by push_cast; ring
+      have e2 : c.dt * (((2 * m + 1 : Nat) : Int) * (k2 : Int) - 1)
+          = 2 * (c.dt * (m : Int)) + c.dt * ((2 * m + 1 : Nat) : Int) * ((k2 : Int) - 1) := by
+        push_cast; ring
+      rw [e1, e2]
+      generalize c.dt * (m : Int) = x
+      generalize c.dt * ((2 * m + 1 : Nat) : Int) * ((k2 : Int) - 1) = y
+      omega
+  · simp only; push_cast; ring
+  · simp only
+    rw [blocks_blocks f k1 k2 hk1 hk2, List.map_map]
+    rfl
+
+theorem mem_blocks_length (K : Nat) (l B : List Rat) (hB : B ∈ blocks K l) : B.length = K := by
+  unfold blocks at hB
+  obtain ⟨i, hi, rfl⟩ := List.mem_map.mp hB
+  rw [List.mem_range] at hi
+  have := Nat.mul_le_of_le_div _ _ _ (Nat.succ_le_of_lt hi)
+  rw [List.length_take, List.length_drop]
+  have e : (i + 1) * K = i * K + K := by ring
+  have : i.succ * K = (i + 1) * K := rfl
+  omega
+
+/-! ### arithmetic: `withData` (deepening round D) -/
+
+theorem withData_timestamps (a : Src) (d : List Rat) (h : d.length = a.data.length) :
+    (a.withData d).timestamps = a.timestamps := by
+  cases a with
+  | cont c => simp only [Src.withData, Src.timestamps, Cont.timestamps, Cont.stop, h, Src.data]
+  | ts l =>
+    simp only [Src.withData, Src.timestamps]
+    rw [List.map_fst_zip]
+    simp only [Src.data, List.length_map] at h
+    simp [h]
+
+theorem withData_data (a : Src) (d : List Rat) (h : d.length = a.data.length) :
+    (a.withData d).data = d := by
+  cases a with
+  | cont c => rfl
+  | ts l =>
+    simp only [Src.withData, Src.data]
+    rw [List.map_snd_zip]
+    simp only [Src.data, List.length_map] at h
+    simp [h]
+
+theorem withData_wf (a : Src) (d : List Rat) (h : a.wf) : (a.withData d).wf := by
+  cases a with
+  | cont c => exact h
+  | ts l => trivial
+
 end Verif.C04
